@@ -13,7 +13,7 @@ class C05(Prop):
                   '>=2 declarations; distinct = distinct source tree')
 
     def streams(self, rng, tier):
-        n = 400 if tier == 'quick' else scale(60000)
+        n = 1200 if tier == 'quick' else scale(60000)
         corpus = [[], [{'k': 'namespace', 'name': ['A', 'B'], 'elems': [{'k': 'namespace', 'name': ['A'], 'elems': [
             {'k': 'interface', 'name': ['I'], 'types': [{'k': 'enum', 'name': ['E'], 'fields': ['X']}], 'events': []}]}]},
             {'k': 'namespace', 'name': ['A', 'B'], 'elems': [{'k': 'enum', 'name': ['E'], 'fields': []}]},
